@@ -1273,6 +1273,8 @@ func (self RadiotapHEData6) MidamblePeriodicity() MidamblePeriodicity {
 	return MidamblePeriodicity((self & RadiotapHEData6MidamblePeriodic) >> 15)
 }
 
+var errRadioTapFieldBeyondData = errors.New("RadioTap field extends beyond data")
+
 func decodeRadioTap(data []byte, p gopacket.PacketBuilder) error {
 	d := &RadioTap{}
 	// TODO: Should we set LinkLayer here? And implement LinkFlow
@@ -1378,11 +1380,19 @@ func (m *RadioTap) DecodeFromBytes(data []byte, df gopacket.DecodeFeedback) erro
 	vendorNamespace := false
 	for _, present := range m.Present {
 		if radioTapNamespace {
-			rValues, newOffset := RadioTapNamespace{}.decodeRadioTapNamespace(data, offset, present)
+			rValues, newOffset, err := RadioTapNamespace{}.decodeRadioTapNamespace(data, offset, present)
+			if err != nil {
+				df.SetTruncated()
+				return err
+			}
 			m.RadioTapValues = append(m.RadioTapValues, rValues)
 			offset = newOffset
 		} else if vendorNamespace {
-			vValues, newOffset := VendorNamespace{}.decodeVendorNamespace(data, offset, present)
+			vValues, newOffset, err := VendorNamespace{}.decodeVendorNamespace(data, offset, present)
+			if err != nil {
+				df.SetTruncated()
+				return err
+			}
 			m.VendorValues = append(m.VendorValues, vValues)
 			offset = newOffset
 		} else {
@@ -1403,7 +1413,7 @@ func (m *RadioTap) DecodeFromBytes(data []byte, df gopacket.DecodeFeedback) erro
 	payload := data[m.Length:]
 
 	// Remove non standard padding used by some Wi-Fi drivers
-	if m.RadioTapValues[0].Flags.Datapad() &&
+	if m.RadioTapValues[0].Flags.Datapad() && len(payload) >= 2 &&
 		payload[0]&0xC == 0x8 { //&& // Data frame
 		headlen := 24
 		if payload[0]&0x8C == 0x88 { // QoS
@@ -1412,7 +1422,7 @@ func (m *RadioTap) DecodeFromBytes(data []byte, df gopacket.DecodeFeedback) erro
 		if payload[1]&0x3 == 0x3 { // 4 addresses
 			headlen += 2
 		}
-		if headlen%4 == 2 {
+		if headlen%4 == 2 && len(payload) >= headlen+2 {
 			payload = append(payload[:headlen], payload[headlen+2:len(payload)]...)
 		}
 	}
@@ -1437,89 +1447,148 @@ func (m *RadioTap) DecodeFromBytes(data []byte, df gopacket.DecodeFeedback) erro
 	return nil
 }
 
-func (m RadioTapNamespace) decodeRadioTapNamespace(data []byte, offset uint16, present RadioTapPresent) (RadioTapNamespace, uint16) {
+func (m RadioTapNamespace) decodeRadioTapNamespace(data []byte, offset uint16, present RadioTapPresent) (RadioTapNamespace, uint16, error) {
+	// fits reports whether a field of the given size lies within data at the current offset
+	fits := func(size int) bool { return int(offset)+size <= len(data) }
 	if present.TSFT() {
 		offset += align(offset, 8)
+		if !fits(8) {
+			return m, offset, errRadioTapFieldBeyondData
+		}
 		m.TSFT = binary.LittleEndian.Uint64(data[offset : offset+8])
 		offset += 8
 	}
 	if present.Flags() {
+		if !fits(1) {
+			return m, offset, errRadioTapFieldBeyondData
+		}
 		m.Flags = RadioTapFlags(data[offset])
 		offset++
 	}
 	if present.Rate() {
+		if !fits(1) {
+			return m, offset, errRadioTapFieldBeyondData
+		}
 		m.Rate = RadioTapRate(data[offset])
 		offset++
 	}
 	if present.Channel() {
 		offset += align(offset, 2)
+		if !fits(4) {
+			return m, offset, errRadioTapFieldBeyondData
+		}
 		m.ChannelFrequency = RadioTapChannelFrequency(binary.LittleEndian.Uint16(data[offset : offset+2]))
 		offset += 2
 		m.ChannelFlags = RadioTapChannelFlags(binary.LittleEndian.Uint16(data[offset : offset+2]))
 		offset += 2
 	}
 	if present.FHSS() {
+		if !fits(2) {
+			return m, offset, errRadioTapFieldBeyondData
+		}
 		m.FHSS = binary.LittleEndian.Uint16(data[offset : offset+2])
 		offset += 2
 	}
 	if present.DBMAntennaSignal() {
+		if !fits(1) {
+			return m, offset, errRadioTapFieldBeyondData
+		}
 		m.DBMAntennaSignal = int8(data[offset])
 		offset++
 	}
 	if present.DBMAntennaNoise() {
+		if !fits(1) {
+			return m, offset, errRadioTapFieldBeyondData
+		}
 		m.DBMAntennaNoise = int8(data[offset])
 		offset++
 	}
 	if present.LockQuality() {
 		offset += align(offset, 2)
+		if !fits(2) {
+			return m, offset, errRadioTapFieldBeyondData
+		}
 		m.LockQuality = binary.LittleEndian.Uint16(data[offset : offset+2])
 		offset += 2
 	}
 	if present.TxAttenuation() {
 		offset += align(offset, 2)
+		if !fits(2) {
+			return m, offset, errRadioTapFieldBeyondData
+		}
 		m.TxAttenuation = binary.LittleEndian.Uint16(data[offset : offset+2])
 		offset += 2
 	}
 	if present.DBTxAttenuation() {
 		offset += align(offset, 2)
+		if !fits(2) {
+			return m, offset, errRadioTapFieldBeyondData
+		}
 		m.DBTxAttenuation = binary.LittleEndian.Uint16(data[offset : offset+2])
 		offset += 2
 	}
 	if present.DBMTxPower() {
+		if !fits(1) {
+			return m, offset, errRadioTapFieldBeyondData
+		}
 		m.DBMTxPower = int8(data[offset])
 		offset++
 	}
 	if present.Antenna() {
+		if !fits(1) {
+			return m, offset, errRadioTapFieldBeyondData
+		}
 		m.Antenna = uint8(data[offset])
 		offset++
 	}
 	if present.DBAntennaSignal() {
+		if !fits(1) {
+			return m, offset, errRadioTapFieldBeyondData
+		}
 		m.DBAntennaSignal = uint8(data[offset])
 		offset++
 	}
 	if present.DBAntennaNoise() {
+		if !fits(1) {
+			return m, offset, errRadioTapFieldBeyondData
+		}
 		m.DBAntennaNoise = uint8(data[offset])
 		offset++
 	}
 	if present.RxFlags() {
 		offset += align(offset, 2)
+		if !fits(2) {
+			return m, offset, errRadioTapFieldBeyondData
+		}
 		m.RxFlags = RadioTapRxFlags(binary.LittleEndian.Uint16(data[offset:]))
 		offset += 2
 	}
 	if present.TxFlags() {
 		offset += align(offset, 2)
+		if !fits(2) {
+			return m, offset, errRadioTapFieldBeyondData
+		}
 		m.TxFlags = RadioTapTxFlags(binary.LittleEndian.Uint16(data[offset:]))
 		offset += 2
 	}
 	if present.RtsRetries() {
+		if !fits(1) {
+			return m, offset, errRadioTapFieldBeyondData
+		}
 		m.RtsRetries = uint8(data[offset])
 		offset++
 	}
 	if present.DataRetries() {
+		if !fits(1) {
+			return m, offset, errRadioTapFieldBeyondData
+		}
 		m.DataRetries = uint8(data[offset])
 		offset++
 	}
 	if present.MCS() {
+		if !fits(3) {
+			return m, offset, errRadioTapFieldBeyondData
+		}
 		m.MCS = RadioTapMCS{
 			RadioTapMCSKnown(data[offset]),
 			RadioTapMCSFlags(data[offset+1]),
@@ -1529,6 +1598,9 @@ func (m RadioTapNamespace) decodeRadioTapNamespace(data []byte, offset uint16, p
 	}
 	if present.AMPDUStatus() {
 		offset += align(offset, 4)
+		if !fits(8) {
+			return m, offset, errRadioTapFieldBeyondData
+		}
 		m.AMPDUStatus = RadioTapAMPDUStatus{
 			Reference: binary.LittleEndian.Uint32(data[offset:]),
 			Flags:     RadioTapAMPDUStatusFlags(binary.LittleEndian.Uint16(data[offset+4:])),
@@ -1538,6 +1610,9 @@ func (m RadioTapNamespace) decodeRadioTapNamespace(data []byte, offset uint16, p
 	}
 	if present.VHT() {
 		offset += align(offset, 2)
+		if !fits(12) {
+			return m, offset, errRadioTapFieldBeyondData
+		}
 		m.VHT = RadioTapVHT{
 			Known:     RadioTapVHTKnown(binary.LittleEndian.Uint16(data[offset:])),
 			Flags:     RadioTapVHTFlags(data[offset+2]),
@@ -1560,6 +1635,9 @@ func (m RadioTapNamespace) decodeRadioTapNamespace(data []byte, offset uint16, p
 	}
 	if present.HE() {
 		offset += align(offset, 2)
+		if !fits(12) {
+			return m, offset, errRadioTapFieldBeyondData
+		}
 		m.HE = RadiotapHE{
 			Data1: RadiotapHEData1(binary.LittleEndian.Uint16(data[offset:])),
 			Data2: RadiotapHEData2(binary.LittleEndian.Uint16(data[offset+2:])),
@@ -1571,11 +1649,14 @@ func (m RadioTapNamespace) decodeRadioTapNamespace(data []byte, offset uint16, p
 		offset += 12
 	}
 
-	return m, offset
+	return m, offset, nil
 }
 
-func (v VendorNamespace) decodeVendorNamespace(data []byte, offset uint16, present RadioTapPresent) (VendorNamespace, uint16) {
+func (v VendorNamespace) decodeVendorNamespace(data []byte, offset uint16, present RadioTapPresent) (VendorNamespace, uint16, error) {
 	offset += align(offset, 2)
+	if int(offset)+8 > len(data) {
+		return v, offset, errRadioTapFieldBeyondData
+	}
 
 	v.OUI = data[offset : offset+3]
 	offset += 4
@@ -1586,10 +1667,13 @@ func (v VendorNamespace) decodeVendorNamespace(data []byte, offset uint16, prese
 	v.SkipLength = binary.LittleEndian.Uint16(data[offset:])
 	offset += 2
 
-	v.Contents = data[offset : offset+v.SkipLength]
+	if int(offset)+int(v.SkipLength) > len(data) {
+		return v, offset, errRadioTapFieldBeyondData
+	}
+	v.Contents = data[offset : int(offset)+int(v.SkipLength)]
 	offset += v.SkipLength
 
-	return v, offset
+	return v, offset, nil
 }
 
 func (m RadioTap) SerializeTo(b gopacket.SerializeBuffer, opts gopacket.SerializeOptions) error {
